@@ -17,7 +17,7 @@ listed node type): for those the theorem holds at full strength and an `_oldcode
 records what the old code did.
 
 Modelled constraints: logical and/or/xor/not; anything, camliType, anyCamliType, blobRefPrefix,
-blobSize; permanode attr / value / valueMatches (equals, contains, hasPrefix, hasSuffix, empty,
+blobSize; permanode at / attr / value / valueMatches (equals, contains, hasPrefix, hasSuffix, empty,
 byteLength, caseInsensitive on ASCII) / valueMatchesInt / numValue / valueAll / valueInSet / skipHidden / modTime / time /
 relation (parent, child; any, all; edgeType); file fileName / fileSize / mimeType / time / modTime /
 wholeRef / parentDir; dir fileName / blobRefPrefix / parentDir / topFileCount / contains /
@@ -169,6 +169,19 @@ def wTypes : World :=
                ⟨mkRef 3, .set, sCamliNodeType, sTa, 12, false⟩, ⟨mkRef 3, .set, sCamliNodeType, sTb, 13, false⟩],
     deleted := [], ctime := [], files := [], dirs := [] }
 
+/-- p1 was of type ta from :20 to :40; p2 is of type ta for its owner – the del-attribute is somebody
+else's; p3's only type claim is somebody else's -/
+def wChurn : World :=
+  { blobs := [pnBlob 1, pnBlob 2, pnBlob 3],
+    claims := [⟨mkRef 1, .set, sCamliNodeType, sTa, 20, false⟩, ⟨mkRef 1, .del, sCamliNodeType, sTa, 40, false⟩,
+               ⟨mkRef 2, .set, sCamliNodeType, sTa, 50, false⟩, ⟨mkRef 2, .del, sCamliNodeType, sTa, 60, true⟩,
+               ⟨mkRef 3, .set, sCamliNodeType, sTa, 70, true⟩],
+    deleted := [], ctime := [], files := [], dirs := [] }
+
+/-- `{permanode: {attr: camliNodeType, value: ta, at: <t>}}` -/
+def typeTaAt (t : Time) : Cons :=
+  .mk .none .nil .nil noFlat (.mk { noP with attr := sCamliNodeType, value := sTa, atT := t } .nil none .nil .nil) .nil .nil
+
 /-- `and(camliType=permanode, or(tag=x, camliNodeType=tb))` -/
 def cTaggedOrTyped : Cons := logicalC .and isPermanode (logicalC .or (attrIs sTag sX) (attrIs sCamliNodeType sTb))
 
@@ -184,6 +197,18 @@ theorem C08_planner_sound_unsorted (w : World) (hw : w.refsSha224 = true) (c : C
 
 example : wTypes.refsSha224 = true ∧ pnBlob 1 ∈ wTypes.blobs ∧ matchesC gtbl wTypes cTaggedOrTyped (pnBlob 1) = true ∧
     (pickSource gtbl cTaggedOrTyped .unsorted).sorted = false := by decide
+
+/-- the node-type source must offer a permanode that HAD the type at the time asked about, and one
+whose type only somebody else removed: asked at :30, p1 (type deleted at :40) matches; asked now, p2
+matches and p1, p3 do not; the source picked for an unsorted search is the per-type set, and it has
+all of them -/
+example : matchesC gtbl wChurn (typeTaAt 30) (pnBlob 1) = true ∧ matchesC gtbl wChurn (typeTaAt 0) (pnBlob 1) = false ∧
+    matchesC gtbl wChurn (typeTaAt 0) (pnBlob 2) = true ∧ matchesC gtbl wChurn (typeTaAt 0) (pnBlob 3) = false ∧
+    pickSource gtbl (typeTaAt 30) .unsorted = .types [sTa] ∧
+    candidates wChurn (.types [sTa]) = [pnBlob 1, pnBlob 2, pnBlob 3] ∧
+    (query gtbl wChurn ⟨typeTaAt 30, .unsorted, -1⟩).toOption = some (.types [sTa], [pnBlob 1]) ∧
+    (query gtbl wChurn ⟨typeTaAt 0, .blobRefAsc, -1⟩).toOption = some (.types [sTa], [pnBlob 2]) ∧
+    (query gtbl wChurn ⟨typeTaAt 45, .createdAsc, -1⟩).toOption = some (.types [sTa], []) := by decide
 
 /-- what the sorted permanode enumerations know of a blob: it has claims, is not deleted and has
 the time they sort by (corpus.go:1053-1059) -/
